@@ -265,22 +265,85 @@ def _eval_one(c):
     return got, mod.oracle(c)
 
 
+def _eval_chunk(chunk):
+    return [_eval_one(c) for c in chunk]
+
+
+def _run_in_child(fn, arg, timeout):
+    """fn(arg) in a forked child; (True, result) or (False, reason) when the child died or did not answer in time"""
+    import multiprocessing as mp
+    ctx = mp.get_context("fork")
+    recv, send = ctx.Pipe(False)
+
+    def target(conn):
+        try:
+            conn.send(fn(arg))
+        finally:
+            conn.close()
+    p = ctx.Process(target=target, args=(send,))
+    p.start()
+    send.close()
+    res, ok = None, False
+    try:
+        if recv.poll(timeout):
+            res, ok = recv.recv(), True
+    except (EOFError, OSError):
+        ok = False
+    p.join(2)
+    if p.is_alive():
+        p.kill()
+        p.join(2)
+    return (True, res) if ok else (False, f"exit={p.exitcode}")
+
+
 def _eval_all(mod, cases):
-    """(impl(c), oracle(c)) for every case; forked worker pool when the module sets PARALLEL"""
+    """(impl(c), oracle(c)) for every case; forked workers when the module sets PARALLEL.
+    A worker that dies (a crash inside native code) or never answers must not hang the check: unfinished chunks are re-run in
+    children of their own, and a chunk that kills its child is re-run case by case — the culprit is reported as an observation."""
     global _EVAL_MOD
     _EVAL_MOD = mod
     n = int(getattr(mod, "PARALLEL", 0) or 0)
     if n <= 1 or len(cases) < 200:
         return [_eval_one(c) for c in cases]
     import multiprocessing as mp
+    from concurrent.futures import ProcessPoolExecutor, as_completed
     cores = os.cpu_count() or 1
     n = min(n, cores)
     try:   # share the machine: several checks may run at once
         n = max(2, min(n, int(n * cores / max(float(cores), os.getloadavg()[0] + 1.0))))
     except OSError:
         pass
-    with mp.get_context("fork").Pool(n) as pool:
-        return pool.map(_eval_one, cases, chunksize=max(1, len(cases) // (n * 8)))
+    size = max(1, len(cases) // (n * 8))
+    chunks = [cases[i:i + size] for i in range(0, len(cases), size)]
+    limit = int(getattr(mod, "CASE_TIMEOUT_S", 120))
+    done = [None] * len(chunks)
+    ex = ProcessPoolExecutor(max_workers=n, mp_context=mp.get_context("fork"))
+    try:
+        futs = {ex.submit(_eval_chunk, ch): i for i, ch in enumerate(chunks)}
+        for f in as_completed(futs, timeout=max(1800, 2 * limit)):
+            done[futs[f]] = f.result()
+    except Exception:      # BrokenProcessPool (a worker died), TimeoutError (a worker is stuck in native code), …
+        pass
+    finally:
+        for proc in list(getattr(ex, "_processes", {}).values() or []):
+            try:
+                proc.kill()
+            except Exception:
+                pass
+        ex.shutdown(wait=False, cancel_futures=True)
+    for i, ch in enumerate(chunks):
+        if done[i] is not None:
+            continue
+        ok, res = _run_in_child(_eval_chunk, ch, len(ch) * limit + 60)
+        if ok:
+            done[i] = res
+            continue
+        out = []
+        for c in ch:       # the chunk kills its worker: find the case
+            ok1, r1 = _run_in_child(_eval_one, c, limit + 30)
+            out.append(r1 if ok1 else ("E:harness:WorkerDied(" + str(r1) + ")", mod.oracle(c)))
+        done[i] = out
+    return [r for ch in done for r in ch]
 
 
 def _abridge(x, max_list=24, max_str=300):
